@@ -136,30 +136,6 @@ func (s *V2Session) SendCommand(ctx context.Context, c ipmi.Command) (ipmi.Compl
 }
 
 func (s *V2Session) buildAndSend(ctx context.Context, c ipmi.Command) error {
-	s.rmcpLayer = layers.RMCP{
-		Version:  layers.RMCPVersion1,
-		Sequence: 0xFF, // do not send us an ACK
-		Class:    layers.RMCPClassIPMI,
-	}
-	s.v2SessionLayer = ipmi.V2Session{
-		Encrypted: true,
-		// packets are only signed if an integrity algorithm was negotiated;
-		// with IntegrityAlgorithmNone there is no AuthCode, so the flag and
-		// trailer must be absent
-		Authenticated:            s.integrityAlgorithm != nil,
-		ID:                       s.RemoteID,
-		PayloadDescriptor:        ipmi.PayloadDescriptorIPMI,
-		IntegrityAlgorithm:       s.integrityAlgorithm,
-		ConfidentialityLayerType: s.confidentialityLayer.LayerType(),
-	}
-	s.messageLayer = ipmi.Message{
-		Operation:     *c.Operation(),
-		RemoteAddress: ipmi.SlaveAddressBMC.Address(),
-		RemoteLUN:     c.RemoteLUN(),
-		LocalAddress:  ipmi.SoftwareIDRemoteConsole1.Address(),
-		Sequence:      1, // used at the session level
-	}
-
 	firstAttempt := true
 	terminalErr := error(nil)
 	retryable := func() error {
@@ -167,6 +143,32 @@ func (s *V2Session) buildAndSend(ctx context.Context, c ipmi.Command) error {
 			firstAttempt = false
 		} else {
 			commandRetries.Inc()
+		}
+
+		// these layers are also used to decode responses, so a retry must not
+		// reuse what the previous attempt's response left in them
+		s.rmcpLayer = layers.RMCP{
+			Version:  layers.RMCPVersion1,
+			Sequence: 0xFF, // do not send us an ACK
+			Class:    layers.RMCPClassIPMI,
+		}
+		s.v2SessionLayer = ipmi.V2Session{
+			Encrypted: true,
+			// packets are only signed if an integrity algorithm was negotiated;
+			// with IntegrityAlgorithmNone there is no AuthCode, so the flag and
+			// trailer must be absent
+			Authenticated:            s.integrityAlgorithm != nil,
+			ID:                       s.RemoteID,
+			PayloadDescriptor:        ipmi.PayloadDescriptorIPMI,
+			IntegrityAlgorithm:       s.integrityAlgorithm,
+			ConfidentialityLayerType: s.confidentialityLayer.LayerType(),
+		}
+		s.messageLayer = ipmi.Message{
+			Operation:     *c.Operation(),
+			RemoteAddress: ipmi.SlaveAddressBMC.Address(),
+			RemoteLUN:     c.RemoteLUN(),
+			LocalAddress:  ipmi.SoftwareIDRemoteConsole1.Address(),
+			Sequence:      1, // used at the session level
 		}
 
 		// TODO handle AuthenticationAlgorithmNone properly
